@@ -334,6 +334,27 @@ theorem runLoop_spec {T : Tables} {inp : Array Nat} {wb : Bool} {fuel : Nat} :
       exact ⟨sl, .step h hr, hsl⟩
     | done o s' => exact ⟨s, .refl s, .inr h⟩
 
+/-- An accepting run ends in a reachable state whose action is `accept`. -/
+theorem parse_accept_state {T : Tables} {inp : Array Nat} {wb : Bool} {fuel : Nat}
+    (h : (parse T inp wb fuel).1 = .accept) :
+    ParseReach T inp wb fuel (parse T inp wb fuel).2 ∧
+    ∃ top, topState (parse T inp wb fuel).2.stack = some top ∧
+      find T.actions top (parse T inp wb fuel).2.la = .hit acceptCode := by
+  rw [parse_eq] at h ⊢
+  cases h1 : readToken T inp initState with
+  | error w => rw [h1] at h; cases h
+  | ok s1 =>
+    rw [h1] at h
+    simp only [] at h ⊢
+    obtain ⟨sl, hr, hsl⟩ := runLoop_spec (T := T) (inp := inp) (wb := wb) (fuel := fuel) fuel s1
+    rcases hsl with ⟨ht, -⟩ | hd
+    · rw [ht] at h; cases h
+    · rcases step_done hd with ⟨-, hs, hacc⟩ | ⟨ho, -⟩ | ⟨ho, -⟩ | ⟨w, ho, -⟩
+      · rw [hs]; exact ⟨⟨s1, h1, hr⟩, hacc⟩
+      · rw [ho] at h; cases h
+      · rw [ho] at h; cases h
+      · rw [ho] at h; cases h
+
 /-! ## Anatomy of `_recover` -/
 
 theorem Frame.rfl' (s : PState) : Frame s s := ⟨rfl, rfl, rfl⟩
